@@ -307,6 +307,10 @@ class _Loader(importlib.machinery.SourceFileLoader):
         d["_pyvc_loop_back"] = loops.loop_back
         LOADED[module.__name__] = os.path.relpath(self.get_filename(module.__name__), REPO)
         super().exec_module(module)
+        # stdlib modules whose C implementations need concrete values are replaced, in the
+        # module's globals only, by shims carrying trusted contracts (bag.py, extern.py)
+        from . import extern
+        extern.patch_module_globals(d)
 
 
 class _Finder(importlib.abc.MetaPathFinder):
